@@ -26,6 +26,7 @@ if TYPE_CHECKING:
     from pyoda_time.calendars._era import Era
     from pyoda_time.globalization._pyoda_format_info import _PyodaFormatInfo
     from pyoda_time.text._i_pattern import IPattern
+    from pyoda_time.text._local_date_pattern import LocalDatePattern
     from pyoda_time.text._value_cursor import _ValueCursor
     from pyoda_time.text.patterns._pattern_cursor import _PatternCursor
 
@@ -149,17 +150,24 @@ class _LocalDatePatternParser(_IPatternParser[LocalDate]):
             pattern_builder._validate_used_fields()
             return pattern_builder._build(self.__template_value)
 
+        def invariant_standard(cached: LocalDatePattern) -> IPattern[LocalDate]:
+            # The cached implementations are built around the default template value: for any other
+            # template value (or calendar), build their custom pattern text around ours instead.
+            if self.__template_value == cached.template_value:
+                return cached
+            return parse_no_standard_expansion(cached.pattern_text)
+
         if len(pattern) == 1:
             match pattern:
                 # Invariant standard patterns return cached implementations.
                 case "R":
                     from pyoda_time.text import LocalDatePattern
 
-                    return LocalDatePattern._Patterns._iso_pattern_impl
+                    return invariant_standard(LocalDatePattern._Patterns._iso_pattern_impl)
                 case "r":
                     from pyoda_time.text import LocalDatePattern
 
-                    return LocalDatePattern._Patterns._full_roundtrip_pattern_impl
+                    return invariant_standard(LocalDatePattern._Patterns._full_roundtrip_pattern_impl)
                 # Other standard patterns expand the pattern text to the appropriate custom pattern.
                 # Note: we don't just recurse, as otherwise a ShortDatePattern of 'd' (for example)
                 # would cause a stack overflow.
